@@ -161,3 +161,94 @@ def sec_judge(case, impl_line):
     if d[0] != (S[0], S[1] >> 7, (S[1] >> 6) & 1, L):
         return "delivered header fields differ from the section's"
     return None
+
+def parse_scripts(tok):
+    """'S256=i257.R,r256|r257;300=...' -> {pid: [[('i',pid,kind)|('r',pid)]...]}"""
+    m = {}
+    for ent in [e for e in tok[1:].split(";") if e]:
+        pid, invs = ent.split("=", 1)
+        il = []
+        for inv in invs.split("|"):
+            acts = []
+            for a in [x for x in inv.split(",") if x]:
+                if a[0] == "r": acts.append(("r", int(a[1:])))
+                else:
+                    p, k = a[1:].split(".", 1)
+                    acts.append(("i", int(p), k))
+            il.append(acts)
+        m[int(pid)] = il
+    return m
+
+def dispatch_reference(case):
+    """the dispatcher of C06/C18 for recording and scripted handlers, recomputed from the input:
+    expected list of ('construct', serial, pid) / ('packet', serial, offset) events.  Returns None when the
+    case involves PID 0 traffic (PAT semantics are outside this reference)."""
+    toks = [t for t in case.split() if not t.startswith("#")]
+    scripts = parse_scripts(toks[2])
+    table = {0: [0, "pat", 0]}
+    serial = 1
+    exp = []
+    off = 0
+    for ch in toks[3:]:
+        data = unhex(ch)
+        for k in range(len(data) // 188):
+            b = data[k * 188:(k + 1) * 188]
+            here = off + k * 188
+            if b[0] != 0x47: continue
+            p = Pkt(b)
+            if p.pid == 0: return None
+            if p.pid not in table:
+                kind = "S%d" % p.pid if p.pid in scripts else "R"
+                table[p.pid] = [serial, kind, 0]
+                exp.append(("construct", serial, p.pid)); serial += 1
+            if p.tei or p.scr != 0: continue
+            h = table[p.pid]
+            exp.append(("packet", h[0], here))
+            if h[1].startswith("S"):
+                acts = scripts.get(int(h[1][1:]), [])
+                acts = acts[h[2]] if h[2] < len(acts) else []
+                h[2] += 1
+                queued = []
+                for a in acts:
+                    if a[0] == "i": queued.append(("i", a[1], [serial, a[2], 0])); serial += 1
+                    else: queued.append(("r", a[1]))
+                for q in queued:
+                    if q[0] == "i": table[q[1]] = q[2]
+                    else: table.pop(q[1], None)
+        off += len(data)
+    return exp
+
+def dispatch_judge(case, impl_line):
+    exp = dispatch_reference(case)
+    nums = parse_obs(impl_line)
+    if nums is None: return "implementation panicked"
+    try: ev = parse_events(nums)
+    except Exception as x: return f"undecodable observation ({x})"
+    if exp is None: return None
+    got = []
+    for e in ev:
+        if e[0] == "construct":
+            if e[1] == 0: continue                       # the PAT handler requested by Demultiplex::new
+            if e[2][0] != "bypid": return f"unexpected request {e[2]}"
+            got.append(("construct", e[1], e[2][1]))
+        elif e[0] == "packet": got.append(("packet", e[1], e[2]))
+    for i, (a, b) in enumerate(zip(got, exp)):
+        if a != b:
+            return f"dispatch event {i}: implementation {a}, per-packet dispatcher specification {b}"
+    if len(got) != len(exp):
+        return f"implementation produced {len(got)} dispatch events, specification {len(exp)} (first missing/extra: {(got + exp)[min(len(got), len(exp))]})"
+    return None
+
+def chunking_groups(cases_path, impl_path):
+    """C07: within a group (#g<k>) every chunking must give the implementation observation of the group's first
+    line (the single push).  Returns list of (lineno, case, impl, why)."""
+    first = {}; bad = []
+    with open(cases_path) as fc, open(impl_path) as fi:
+        for n, (c, i) in enumerate(zip(fc, fi)):
+            g = [t for t in c.split() if t.startswith("#g")]
+            if not g: continue
+            g = g[0]
+            if g not in first: first[g] = (n + 1, i)
+            elif i != first[g][1]:
+                bad.append((n + 1, c.rstrip("\n"), i.rstrip("\n"), f"call-back trace differs from that of the single push of the same stream (case line {first[g][0]})"))
+    return bad
